@@ -53,7 +53,8 @@ ASSUMES = [
     "window does not fit in the image' (identical for odd widths)",
 ]
 TRUSTED = ["Gen/Constants.v produced by translator/gen_constants.py (ast pattern np.array_split(x, np.arange(B, n, B), axis); "
-           "pandora.constants by import)"]
+           "pandora.constants by import)",
+           "Gen/BlockLoops.v produced by translator/gen_block_loops.py (ast transliteration of the double block loop: split expressions, statements on the running offsets where they stand, slice bounds, arrays resolved to np.zeros / np.full_like / np.copy / sliding_window view / parameter expression; fail closed) and its reading as a program by Lib/BlockSkeleton.v exec (total arrays, slice writes neither clamped nor shape-checked)"]
 
 SIDE_A = [3, 7, 49, 50, 51, 99, 100, 101, 103, 205]
 SIDE_B = [3, 5, 52, 101]
